@@ -1,4 +1,5 @@
 import EzdxfVerif.Model.BBox
+import EzdxfVerif.Model.BBoxTree
 import EzdxfVerif.Gen.BBoxKernels
 import Drivers.Proto
 open EzdxfVerif EzdxfVerif.BBox Proto
@@ -60,6 +61,10 @@ def tf (b : Bool) : String := if b then "T" else "F"
 def showOpt {α} (f : α → String) : Option α → String
   | none => "N"
   | some a => f a
+
+def showVerts {α} (f : α → String) : Option (List α) → String
+  | none => "ValueError"
+  | some vs => "/".intercalate (vs.map f)
 
 def pair3 (a b : Box3) : String :=
   ";".intercalate [showBox3 (a.union b), showBox3 (a.intersection b), tf (a.hasIntersection b), tf (a.hasOverlap b),
@@ -124,11 +129,191 @@ def insertSorted (e : Nat × Box3) : List (Nat × Box3) → List (Nat × Box3)
   | [] => [e]
   | h :: t => if e.1 ≤ h.1 then e :: h :: t else h :: insertSorted e t
 
+def insertSortedStr (s : String) : List String → List String
+  | [] => [s]
+  | h :: t => if s ≤ h then s :: h :: t else h :: insertSortedStr s t
+
+/-- keys >= 2^41 stand for uuid keys (`Cache(uuid=True)`): such entries are shown as `u=box`, sorted by text -/
 def showCache (c : Cache) : String :=
-  let sorted := c.boxes.foldl (fun acc e => insertSorted e acc) []
-  "~".intercalate (sorted.map (fun e => toString e.1 ++ "=" ++ showBox3 e.2)) ++ "|" ++ toString c.hits ++ "|" ++ toString c.misses
+  let real := c.boxes.filter (fun e => e.1 < 2199023255552)
+  let virt := c.boxes.filter (fun e => !(e.1 < 2199023255552))
+  let sorted := real.foldl (fun acc e => insertSorted e acc) []
+  let vs := (virt.map (fun e => showBox3 e.2)).foldl (fun acc s => insertSortedStr s acc) []
+  "~".intercalate (sorted.map (fun e => toString e.1 ++ "=" ++ showBox3 e.2) ++ vs.map (fun s => "u=" ++ s)) ++ "|" ++
+    toString c.hits ++ "|" ++ toString c.misses
+
+/-! ### session 3: paths, cubic boxes, entity trees -/
+
+/-- a command: `L:e`, `M:e`, `C3:c:e`, `C4:c1:c2:e` -/
+def parseCmd (s : String) : Option Cmd :=
+  match s.splitOn ":" with
+  | ["L", e] => (parseV3 e).map Cmd.lineTo
+  | ["M", e] => (parseV3 e).map Cmd.moveTo
+  | ["C3", c, e] => match parseV3 c, parseV3 e with
+    | some c, some e => some (.curve3To c e) | _, _ => none
+  | ["C4", c1, c2, e] => match parseV3 c1, parseV3 c2, parseV3 e with
+    | some c1, some c2, some e => some (.curve4To c1 c2 e) | _, _, _ => none
+  | _ => none
+
+/-- the stub used by stream X4: every curve box is the box of the control points of the segment -/
+def stubBoxes : SegBoxes := ⟨fun s c1 c2 e => extents3 [s, c1, c2, e], fun s c e => extents3 [s, c, e]⟩
+
+def boxPair (b : Box3) : V3 × V3 := match b with
+  | .mk lo hi => (lo, hi)
+  | .empty => (⟨0, 0, 0⟩, ⟨0, 0, 0⟩)
+
+/-- `precise_bbox` run through the loop body generated from the current source -/
+def genPrecise (p : Path) : Box3 :=
+  open Gen.BBoxKernels in
+  if p.cmds.isEmpty then .empty else
+  let bb4 := fun s c1 c2 e => boxPair (stubBoxes.bb4 s c1 c2 e)
+  let bb3 := fun s c e => boxPair (stubBoxes.bb3 s c e)
+  let z : V3 := ⟨0, 0, 0⟩
+  let r := p.cmds.foldl (fun (acc : List V3 × V3) c =>
+    let st := match c with
+      | .lineTo e => preciseStep bb4 bb3 Prod.fst Prod.snd 1 acc.2 e z z z
+      | .curve3To c e => preciseStep bb4 bb3 Prod.fst Prod.snd 2 acc.2 e z z c
+      | .curve4To c1 c2 e => preciseStep bb4 bb3 Prod.fst Prod.snd 3 acc.2 e c1 c2 z
+      | .moveTo e => preciseStep bb4 bb3 Prod.fst Prod.snd 4 acc.2 e z z z
+    (acc.1 ++ st.1, st.2)) ([p.start], p.start)
+  extents3 r.1
+
+def grid (x : Rat) : Int := (x * 1048576 + 1 / 2).floor
+
+def showGridV (v : V3) : String := toString (grid v.x) ++ "," ++ toString (grid v.y) ++ "," ++ toString (grid v.z)
+
+def showGridBox : Box3 → String
+  | .empty => "E"
+  | .mk lo hi => showGridV lo ++ "," ++ showGridV hi
+
+def tolReal : Rat := 1 / 1000000000000
+
+/-- `cubic_bezier_bbox` with the parameters collected by the kernel generated from the current source -/
+def genCubicBBox (p0 p1 p2 p3 : V3) : Box3 :=
+  open Gen.BBoxKernels in
+  let ps := cubicAxisParams tolReal ratSqrt p0.x p1.x p2.x p3.x ++ cubicAxisParams tolReal ratSqrt p0.y p1.y p2.y p3.y ++
+    cubicAxisParams tolReal ratSqrt p0.z p1.z p2.z p3.z
+  extents3 (p0 :: p3 :: ps.map (bezier4V p0 p1 p2 p3))
+
+def parseAff (s : String) : Option Aff :=
+  match parseRats s with
+  | some [a, b, c, d, e, f, g, h, i, j, k, l] => some ⟨a, b, c, d, e, f, g, h, i, j, k, l⟩
+  | _ => none
+
+def parsePts (s : String) : Option Path :=
+  match parseList parseV3 ";" s with
+  | some (p :: ps) => some ⟨p, ps.map Cmd.lineTo⟩
+  | _ => none
+
+/-- forest in prefix form, space separated tokens: `N` | `L key pts F` | `I key aff F(block) F(rest)` -/
+def parseForest : Nat → List String → Option (Forest × List String)
+  | 0, _ => none
+  | _ + 1, "N" :: r => some (.nil, r)
+  | f + 1, "L" :: k :: pts :: r =>
+    match parseKey k, parsePts pts, parseForest f r with
+    | some k, some p, some (rest, r') => some (.leaf k p rest, r')
+    | _, _, _ => none
+  | f + 1, "I" :: k :: m :: r =>
+    match parseKey k, parseAff m, parseForest f r with
+    | some k, some m, some (blk, r') =>
+      match parseForest f r' with
+      | some (rest, r'') => some (.insert k m [] blk rest, r'')
+      | none => none
+    | _, _, _ => none
+  -- INSERT by its parameters: J key base scale co,si insert F(block) F(rest)
+  | f + 1, "J" :: k :: b :: s :: cs :: i :: r =>
+    match parseKey k, parseV3 b, parseV3 s, parseV2 cs, parseV3 i, parseForest f r with
+    | some k, some b, some s, some cs, some i, some (blk, r') =>
+      match parseForest f r' with
+      | some (rest, r'') => some (.insert k (insertAff b s i cs.x cs.y) [] blk rest, r'')
+      | none => none
+    | _, _, _, _, _, _ => none
+  -- MINSERT: G key base scale co,si insert cols,rows,colspacing,rowspacing F(block) F(rest)
+  | f + 1, "G" :: k :: b :: s :: cs :: i :: g :: r =>
+    match parseKey k, parseV3 b, parseV3 s, parseV2 cs, parseV3 i, parseRats g, parseForest f r with
+    | some k, some b, some s, some cs, some i, some [cols, rows, csp, rsp], some (blk, r') =>
+      match parseForest f r' with
+      | some (rest, r'') =>
+        some (minsert k (insertAff b s i cs.x cs.y) cs.x cs.y csp rsp cols.num.toNat rows.num.toNat blk rest, r'')
+      | none => none
+    | _, _, _, _, _, _, _ => none
+  | _, _ => none
+
+def showKey : Option Nat → String
+  | none => "n"
+  | some k => toString k
+
+def showEnt (e : Ent) : String :=
+  showKey e.key ++ ":" ++ "&".intercalate (e.prims.map (fun q => showKey q.key ++ "=" ++ showGridBox q.box))
+
+def step3 (line : String) : String :=
+  match line.splitOn "|" with
+  | ["pathstub", s, cmds] => match parseV3 s, parseList parseCmd ";" cmds with
+    | some s, some cs =>
+      let p : Path := ⟨s, cs⟩
+      ";".intercalate [showBox3 (p.preciseBBox stubBoxes), showBox3 (genPrecise p), showBox3 (extents3 p.controlVertices),
+        showBox3 (pathsBBox stubBoxes false [p]), showBox3 (pathsBBox stubBoxes true [p])]
+    | _, _ => "bad-op"
+  | ["pathreal", s, cmds] => match parseV3 s, parseList parseCmd ";" cmds with
+    | some s, some cs =>
+      let p : Path := ⟨s, cs⟩
+      showGridBox (p.preciseBBox (realBoxes tolReal ratSqrt)) ++ ";" ++ (if decide (p.CurvesOK tolReal ratSqrt) then "T" else "F")
+    | _, _ => "bad-op"
+  | ["cubic", p0, p1, p2, p3] => match parseV3 p0, parseV3 p1, parseV3 p2, parseV3 p3 with
+    | some p0, some p1, some p2, some p3 =>
+      ";".intercalate [showGridBox (cubicBBox tolReal ratSqrt p0 p1 p2 p3), showGridBox (genCubicBBox p0 p1 p2 p3),
+        if decide (CurveOK tolReal ratSqrt p0 p1 p2 p3) then "T" else "F"]
+    | _, _, _, _ => "bad-op"
+  | ["quad", p0, p1, p2] => match parseV3 p0, parseV3 p1, parseV3 p2 with
+    | some p0, some p1, some p2 =>
+      let g := genCubicBBox p0 ⟨Gen.BBoxKernels.quadControl1 p0.x p1.x p2.x, Gen.BBoxKernels.quadControl1 p0.y p1.y p2.y,
+          Gen.BBoxKernels.quadControl1 p0.z p1.z p2.z⟩ ⟨Gen.BBoxKernels.quadControl2 p0.x p1.x p2.x,
+          Gen.BBoxKernels.quadControl2 p0.y p1.y p2.y, Gen.BBoxKernels.quadControl2 p0.z p1.z p2.z⟩ p2
+      showGridBox (quadBBox tolReal ratSqrt p0 p1 p2) ++ ";" ++ showGridBox g
+    | _, _, _ => "bad-op"
+  | ["primfast", kind, pts] => match parseList parseV3 ";" pts with
+    | some ps =>
+      -- `Primitive.bbox(fast=True)`: path primitives -> box of `control_vertices()` (`Path.box`), mesh -> box of the vertices
+      if kind = "path" then
+        match ps with
+        | p :: rest => showBox3 (Path.box stubBoxes true ⟨p, rest.map Cmd.lineTo⟩)
+        | [] => "E"
+      else showBox3 (extents3 ps)
+    | none => "bad-op"
+  | ["inval", entries, hits, misses, keys] =>
+    match parseList parseEntry "~" entries, hits.toNat?, misses.toNat?, parseList parseKey "," keys with
+    | some boxes, some h, some m, some ks => showCache ((Cache.mk boxes h m).invalidate ks)
+    | _, _, _, _ => "bad-op"
+  | ["selc", c, r, b] => match parseV2 c, parseRat r, parseBox2 b with
+    | some c, some r, some b =>
+      let s : SelCircle := ⟨c, r⟩
+      let g := match b with
+        | .mk lo hi =>
+          (match Gen.BBoxKernels.circleOverlap (s.bbox.hasOverlap b) c.x c.y lo.x lo.y hi.x hi.y with
+            | none => false
+            | some v => s.vertexInside ⟨v.1, v.2⟩)
+        | .empty => false
+      ";".intercalate [tf (s.inside b), tf (s.outside b), tf (s.overlapping b), tf g]
+    | _, _, _ => "bad-op"
+  | ["selw", p1, p2, b] => match parseV2 p1, parseV2 p2, parseBox2 b with
+    | some p1, some p2, some b =>
+      let w : SelWindow := ⟨p1, p2⟩
+      ";".intercalate [tf (w.inside b), tf (w.outside b), tf (w.overlapping b)]
+    | _, _, _ => "bad-op"
+  | ["tree", fast, rp, toks] =>
+    let ts := (toks.splitOn " ").filter (fun s => !s.isEmpty)
+    match parseForest (ts.length + 1) ts with
+    | some (f, []) =>
+      let repr : Aff → Bool := fun _ => rp = "1"
+      let es := toEnts repr (realBoxes tolReal ratSqrt) (fast = "1") f
+      ";".intercalate (es.map showEnt) ++ "|" ++ showGridBox (extentsOf false ⟨[], 0, 0⟩ es).1 ++ "|" ++
+        showGridBox (extentsOf true ⟨[], 0, 0⟩ es).1 ++ "|" ++ toString f.depth
+    | _ => "bad-op"
+  | _ => "bad-op"
 
 def step (line : String) : String :=
+  if line.startsWith "path" || line.startsWith "cubic|" || line.startsWith "quad|" || line.startsWith "tree|" ||
+      line.startsWith "sel" || line.startsWith "inval|" || line.startsWith "primfast|" then step3 line else
   match line.splitOn "|" with
   | ["pair3", a, b] => match parseBox3 a, parseBox3 b with
     | some a, some b => pair3 a b ++ ";" ++ gpair3 a b | _, _ => "bad-op"
@@ -140,10 +325,11 @@ def step (line : String) : String :=
     | some a, some b => pair2 a b.to2 | _, _ => "bad-op"
   | ["box3", a] => match parseBox3 a with
     | some a => ";".intercalate [tf a.hasData, tf a.isEmpty, showOpt showV3 a.size, showOpt showV3 a.center,
-        showBox3 (extendAll [a]), tf (decide a.WF)]
+        showBox3 (extendAll [a]), tf (decide a.WF), showVerts showV2 a.rectVertices, showVerts showV3 a.cubeVertices]
     | none => "bad-op"
   | ["box2", a] => match parseBox2 a with
-    | some a => ";".intercalate [tf a.hasData, tf a.isEmpty, showOpt showV2 a.size, showOpt showV2 a.center, tf (decide a.WF)]
+    | some a => ";".intercalate [tf a.hasData, tf a.isEmpty, showOpt showV2 a.size, showOpt showV2 a.center, tf (decide a.WF),
+        showVerts showV2 a.rectVertices]
     | none => "bad-op"
   | ["pt3", a, p] => match parseBox3 a, parseV3 p with
     | some a, some p => tf (a.inside p) ++ ";" ++ showBox3 (a.extend [p]) | _, _ => "bad-op"
